@@ -188,6 +188,31 @@ Theorem C08_negative_string_accepted : forall tail, len tail = two31 -> wf tail 
   bs_extent b T_STRING = Ok (4 + two31).
 Proof. exact bs_negative_string. Qed.
 
+
+(* BufferReader.Skip: container counts are int(uint32): a LIST<BOOL> whose count has the sign bit
+   set, followed by that many bytes, is accepted; the grammar says "negative size" *)
+Definition C08_bufferreader_is_ref_statement : Prop :=
+  forall S c st t, wf S -> SAt S c st -> t < 256 -> acc_iff_ref (br_extent st t) inl_br t (drop c S).
+
+Theorem C08_bufferreader_is_ref_refuted : ~ C08_bufferreader_is_ref_statement.
+Proof. exact brskip_is_ref_refuted. Qed.
+
+Theorem C08_negative_count_accepted : forall tail, len tail = two31 -> wf tail ->
+  let S := 2 :: be 4 two31 ++ tail in
+  let st := new_bytes_reader S (len S) in
+  wf S /\ SAt S 0 st /\ gparse T_LIST S = Err E_NEGSIZE /\ br_extent st T_LIST = Ok (5 + two31).
+Proof. exact br_negative_count. Qed.
+
+(* Binary.Skip is not affected: every negative declared size the parse reaches is rejected, for
+   inputs of any length (instance of C08_rejects_malformed through C08_binary_acc) *)
+Theorem C08_binary_rejects_negative_size : forall b t, wf b -> t < 256 ->
+  gparse t b = Err E_NEGSIZE -> exists c, binary_skip b t = Err c /\ c <> e_fuel.
+Proof. intros b t W Ht G. exact (z_rejects_malformed _ _ _ _ (binary_acc b t W Ht) E_NEGSIZE G). Qed.
+
+Theorem C08_binary_rejects_unknown_tag : forall b t, wf b -> t < 256 ->
+  gparse t b = Err E_BADTYPE -> exists c, binary_skip b t = Err c /\ c <> e_fuel.
+Proof. intros b t W Ht G. exact (z_rejects_malformed _ _ _ _ (binary_acc b t W Ht) E_BADTYPE G). Qed.
+
 (* ================= the property, for every skipper that is its reference instance ================= *)
 (* exact up to 63 levels *)
 Theorem C08_exact_le63 : forall x i t r, acc_iff_ref x i t r -> forall n h,
